@@ -282,7 +282,7 @@ func runC10(c *Ctx) {
 	if sqp := p.FnOpt("(*rt/client.request).SetQueryParam"); sqp != nil && len(sqp.Params) >= 2 {
 		records := func(in ssa.Instruction) bool {
 			if mu, ok := in.(*ssa.MapUpdate); ok {
-				return (vFieldLoad(clientReqT, "query", nil)(mu.Map) || vFieldLoadO(clientReqT, "query")(mu.Map)) && sameOrigins(mu.Key, sqp.Params[1])
+				return (vFieldLoad(clientReqT, "query", nil)(mu.Map) || vFieldLoadO(clientReqT, "query")(mu.Map) || freshMapStoredTo(mu, clientReqT, "query")) && sameOrigins(mu.Key, sqp.Params[1])
 			}
 			if isCallInstrTo("(net/url.Values).Set")(in) {
 				_, a := callArgs(in.(ssa.CallInstruction).Common())
@@ -302,7 +302,7 @@ func runC10(c *Ctx) {
 	if spp := p.FnOpt("(*rt/client.request).SetPathParam"); spp != nil && len(spp.Params) >= 3 {
 		records := func(in ssa.Instruction) bool {
 			mu, ok := in.(*ssa.MapUpdate)
-			return ok && (vFieldLoad(clientReqT, "pathParams", nil)(mu.Map) || vFieldLoadO(clientReqT, "pathParams")(mu.Map)) && sameOrigins(mu.Key, spp.Params[1])
+			return ok && (vFieldLoad(clientReqT, "pathParams", nil)(mu.Map) || vFieldLoadO(clientReqT, "pathParams")(mu.Map) || freshMapStoredTo(mu, clientReqT, "pathParams")) && sameOrigins(mu.Key, spp.Params[1])
 		}
 		// … and verbatim: the value recorded is the value given (escaping happens at substitution; trimming or folding here
 		// makes different values build the same URL)
@@ -565,6 +565,23 @@ func runC10(c *Ctx) {
 		okPS = vFieldLoadO("rt/client.Runtime", "schemes")(a0[0]) && a1[0] == ssa.Value(paramOf(ps, 0))
 	}
 	recognised := len(sels) == 2
+	if len(sels) == 2 {
+		// the nested form selectScheme(r.schemes, selectScheme(schemes, "http")), selectScheme taking the answer for "nothing
+		// to select" as a parameter: the OUTER call's list wins, the inner call is its fallback, http the inner one's
+		for oi := 0; oi < 2; oi++ {
+			outer, inner := sels[oi], sels[1-oi]
+			_, oa := callArgs(outer.Common())
+			_, ia := callArgs(inner.Common())
+			if len(oa) != 2 || len(ia) != 2 || oa[1] != inner.Value() {
+				continue
+			}
+			k, isK := constString(ia[1])
+			okPS = vFieldLoadO("rt/client.Runtime", "schemes")(oa[0]) && ia[0] == ssa.Value(paramOf(ps, 0)) && isK && k == "http"
+			for _, r := range returnsOf(ps) {
+				okPS = okPS && resOf(r, 0) == outer.Value()
+			}
+		}
+	}
 	if len(sels) == 1 {
 		// one call in a loop over an ordered table of candidate lists: the order is the order of the table's elements
 		a := listOperand(sels[0])
@@ -616,6 +633,13 @@ func runC10(c *Ctx) {
 	elemIsHTTPS := factEqString(func(v ssa.Value) bool { ok, _ := allOrigins(v, isElem); return ok }, "https", true)
 	for _, r := range returnsOf(ss) {
 		ok, bad := allOrigins(r.Results[0], oConstString(""), isElem, func(o Origin) bool {
+			// the caller's own answer for "nothing to select", handed in as a further string parameter (pickScheme's
+			// rules judge what is handed in)
+			if prm, isP := o.V.(*ssa.Parameter); isP && prm.Parent() == ss && prm != schemes && typeStr(prm.Type()) == "string" {
+				return true
+			}
+			return false
+		}, func(o Origin) bool {
 			// the constant "https" stands for an element when the return is reached only after an element compared equal to it
 			s, isC := constString(o.V)
 			return isC && s == "https" && guardedBy(r, nil, elemIsHTTPS)
@@ -747,6 +771,13 @@ func runC10(c *Ctx) {
 				}
 				return false
 			}
+			if k, isK := constString(st.Val); isK && k == "/" && !okV(st.Val, 4) {
+				// the root path stored outright: what the normalisation yields for an empty base path. Whether the test in
+				// front of the store admits anything else is a question about the VALUE the field holds there (a
+				// re-assertion `if p == "" || p[0] != '/'` after the normalisation never fires) — not recognised, not a verdict
+				c.obRI("R10.3", st, "base-path-verbatim", false, "the base path given to client.New is stored as given, at most prefixed with a missing '/': its static query values reach buildHTTP unchanged", "the constant \"/\" is stored; whether only for an empty base path is not decided")
+				continue
+			}
 			c.obI("R10.3", st, "base-path-verbatim", okV(st.Val, 4), "the base path given to client.New is stored as given, at most prefixed with a missing '/': its static query values reach buildHTTP unchanged", "value "+describe(st.Val))
 		}
 	}
@@ -836,4 +867,23 @@ func errValueUnused(call *ssa.Call) bool {
 		}
 	}
 	return true
+}
+
+// freshMapStoredTo: the map updated is one made in this function (a map literal) that is, in the same block and after
+// the update, stored into the named field — `r.f = map[K]V{k: v}` records k in r.f.
+func freshMapStoredTo(mu *ssa.MapUpdate, typ, field string) bool {
+	m := mu.Map
+	if _, isMk := m.(*ssa.MakeMap); !isMk {
+		return false
+	}
+	for _, st := range fieldStores(mu.Parent(), typ, field) {
+		v := st.Val
+		if ct, isCT := v.(*ssa.ChangeType); isCT {
+			v = ct.X
+		}
+		if v == m && st.Block() == mu.Block() && dominates(mu, st) {
+			return true
+		}
+	}
+	return false
 }
